@@ -598,6 +598,22 @@ def _c15c_walk_details(F, R, f, name, guard, parent_p):
         else:
             R.bad(f"{name}|walk-start", f"the ancestry walk starts from `{ekey(init)[:70]}`, not unconditionally from the including file `{parent_p}`: whenever the short-cut skips the walk (a cycle closed through another spelling of the path - `./main.s`, `../dir/main.s`) the cycle is followed instead of being reported", loc(lets[cur]))
 
+    # the chain the walk follows is recorded: the map read by `cur = self.<map>.get(&id)` gets `insert(<new id>, <parent>)` in this function
+    chain_maps = set()
+    for lp in walk(body, pats=False):
+        if lp.get("k") == "Loop" and any(x is guard for x in walk(lp, pats=False)):
+            for a_ in walk(lp, pats=False):
+                if a_.get("k") == "Assign" and cur is not None and ekey(a_["l"]) == cur:
+                    for g_ in walk(a_["r"], pats=False):
+                        if g_.get("k") == "MethodCall" and g_["name"] in ("get", "get_mut") and ekey(g_["recv"]).startswith("self."):
+                            chain_maps.add(ekey(g_["recv"]))
+    for mp in sorted(chain_maps):
+        ins_ = [m_ for m_ in walk(body, pats=False) if m_.get("k") == "MethodCall" and m_["name"] == "insert" and ekey(m_["recv"]) == mp and len(m_["args"]) == 2]
+        if ins_:
+            R.ok(f"{name}|chain-recorded", detail=f"`{mp}.insert(new id, parent)` records the chain that the walk follows", where=loc(ins_[0]))
+        else:
+            R.bad(f"{name}|chain-recorded", f"the ancestry walk follows `{mp}`, but {name}::import_file never inserts into it: the chain ends at the direct includer and a cycle through two or more files is followed for ever", f["sp"])
+
     def norms(e, depth=0, seen=None):
         seen = seen if seen is not None else set()
         out = set()
@@ -1483,7 +1499,7 @@ def c09h(F, R):
             R.ok(key, detail="position taken on a character established not to be a line break", where=where)
 
 
-@rule("C18", "C18.h.excerpt-is-cut-at-the-first-visible-character", floor=1)
+@rule("C18", "C18.h.excerpt-is-cut-at-the-first-visible-character", floor=2)
 def c18h(F, R):
     """the pretty excerpt is left-aligned by dropping the leading blanks of the line: the offset used for the marker is the index of the *first* non-blank character (the search loop stops at its first hit), or the marker is shifted left by the length of the line's last word"""
     fr = [q for q in F.fns if q.endswith("PrettyPrint::format_region")]
@@ -1508,6 +1524,18 @@ def c18h(F, R):
                 R.ok("first-non-blank", detail="the search stops at the first non-blank character", where=loc(iff))
             else:
                 R.bad("first-non-blank", "the search for the first non-blank character of the excerpt line does not stop at its first hit (or tests for blanks instead of non-blanks): the offset is that of a later character and the marker no longer sits under the reported columns", loc(iff))
+    # the marker line really gets its carets: `base.replace_range(offset.., &arrows)` (or a push of the carets)
+    carets = [st for st in walk(body, pats=False) if st.get("k") == "Let" and st["pat"].get("k") == "PBinding" and st.get("init") is not None and any(lit_value(x) == "^" for x in walk(st["init"], pats=False))]
+    if carets:
+        A = carets[0]["pat"]["name"]
+        placed = [m for m in walk(body, pats=False) if m.get("k") == "MethodCall" and m["name"] in ("replace_range", "push_str", "insert_str", "extend") and any(x.get("k") == "Path" and x.get("res") == A for a_ in m["args"] for x in walk(a_, pats=False))]
+        fmt_use = [c for c in walk(body, pats=False) if c.get("k") in ("Call", "MacCall") and "format" in (callee_of(c) or ekey(c)) and any(x.get("k") == "Path" and x.get("res") == A for x in walk(c, pats=False))]
+        if placed or fmt_use:
+            R.ok("carets-placed", detail=f"the carets `{A}` are put into the marker line", where=loc((placed or fmt_use)[0]))
+        else:
+            R.bad("carets-placed", f"the carets (`{A}`) are built but never put into the marker line: the excerpt shows no marker at all", loc(carets[0]))
+    else:
+        R.bad("carets-placed|shape", "UNEXTRACTABLE: format_region builds no caret string", g["sp"])
     if hits == 0:
         # another form: `text.chars().position(|c| !c.is_whitespace())` / `find`
         alt = [m for m in walk(body, pats=False) if m.get("k") == "MethodCall" and m["name"] in ("position", "find") and mentions_call(m, "is_whitespace")]
